@@ -165,4 +165,7 @@ def check(run, model, tier):
         callee = expand_locals(v.func, cs.node, params=cs.params) if isinstance(v, ast.Call) else None
         ok = ok and isinstance(v, ast.Call) and dotted(callee) == cs.params[0] + '.state.fun' and any(signal_const(x) == 'REFLECTION_SIGNAL' for x in ast.walk(v))
     run.inst('BOOK.current-state', cs, 'current_state reflects state.fun', ok, 'current_state does not return the reflection of state.fun', obligation=True)
+    # current_state() is a name only if the handler it asks understands REFLECTION: the chart may stay instrumented only on evidence of the spy_on wrapper
+    from props.c18 import detect_spy_decoration
+    detect_spy_decoration(run, model)
     run.assume('a spy-wrapped handler rewrites state_name/state_fn on every invocation (BOOK.spy), so the last call decides unless the bookkeeping follows it')
